@@ -337,7 +337,29 @@ func (s *Sim) assignKeys(cs []*call) {
 
 // ---------------------------------------------------------------- controller loop
 
+// raceCut: the controller goroutine runs with race synchronisation handling disabled (see run).
+var raceCut bool
+
+// tracked runs f with race synchronisation handling enabled: used where the controller creates
+// objects and goroutines of the code under test (their creation must order their first use).
+func tracked(f func()) {
+	if raceCut {
+		raceEnable()
+		defer raceDisable()
+	}
+	f()
+}
+
 func (s *Sim) run(until time.Duration) {
+	// Race builds: the controller hands every call to the stub worlds and every answer back, which
+	// would order (happens-before) all goroutines of all daemons through this one goroutine and
+	// hide most races of the code under test. A real network creates no such order: the
+	// controller's own synchronisation events are therefore not reported to the race detector
+	// (reports whose stacks are inside the harness are filtered by the runner).
+	if os.Getenv("VERIF_RACE_KEEP_HB") == "" {
+		raceCut = true
+		raceDisable()
+	}
 	for !s.stop {
 		stepCounter.Add(1)
 		synctest.Wait()
